@@ -498,7 +498,7 @@ C10(c, o) ==
      /\ (Range(o.compile.classes) \ CP!Permitted) # {}
      /\ (\A n \in { x \in Emit(c.S) : ST!HostShareable(c.S, x) } : GlamTy(c.S, [ k |-> "struct", name |-> n ]))
      (* input classes whose compile failure has nothing to do with the host-shareable structs (C01's findings) are outside C10 *)
-     /\ CP!PredictedCauses(c.S, c.opts) \cap {"ImplWithoutType", "DuplicateParam", "KeywordIdent", "NameClash", "EntryConstClash", "ConstShadowsLocal", "EmptyEncaseStruct"} = {}
+     /\ CP!PredictedCauses(c.S, c.opts) \cap {"ImplWithoutType", "DuplicateParam", "KeywordIdent", "NameClash", "EntryConstClash", "ConstShadowsLocal", "EmptyEncaseStruct", "DuplicateMember"} = {}
   THEN [ dom |-> TRUE, fails |-> { "the encase + glam module does not compile [predicted=" \o ToJson(CP!PredictedCauses(c.S, c.opts)) \o "]: " \o o.compile.errors[1] } ] ELSE
   IF ~(HasS(c) /\ ValidAll(o) /\ RetOk(o) /\ Compiled(o) /\ c.opts.enc /\ c.opts.mv = "glam") THEN NoVerdict ELSE
   LET evs == SelectSeq(RtOf(o, "encase"), LAMBDA e : e.ev = "rt.encase") IN
